@@ -186,3 +186,10 @@ def t_load_pairing_shared(world):
 _t_lps = tasks
 def tasks(tier):
     return _t_lps(tier) + [('load_pairing', t_load_pairing_shared)]
+
+
+
+# ---------------------------------------------------------------- second engine (thorough tier): one obligation re-decided by Kani/CBMC on the compiled code
+def kani(tier):
+    if tier != 'thorough': return []
+    return [dict(harness='signer_auth_table', oid='C08.k', covers=2, stubs=0, desc='SECOND ENGINE (Kani/CBMC on the compiled code): is_signer_authorized / account_not_frozen_for_authority == the reference truth table for all 2^64 flag words and all 32-byte keys', functions=['marginfi::state::marginfi_account::is_signer_authorized', 'account_not_frozen_for_authority'], bounds='unwind 34 (32-byte key comparison); loop-free otherwise')]
